@@ -18,7 +18,7 @@ from ..translate import codata, uregdefs
 
 PID = "C03"
 ALLOWED_AXIOMS = set()
-EXTRA_TARGETS = ["Model/Units.vo"]
+EXTRA_TARGETS = ["Model/Units.vo", "Model/UnitsText.vo"]
 TOL_MODEL_EXP = -12          # model vs implementation
 TOL_EXACT = Fraction(1, 10 ** 12)
 # Oracle tolerances by BRIDGE KIND (the non-energy dimension involved) and context, from the measured worst deviation of the
@@ -30,11 +30,16 @@ TOL_KIND = {
     2018: {"frequency": Fraction(1, 10 ** 9), "wavenumber": Fraction(1, 10 ** 9), "mass": Fraction(1, 10 ** 9), "temperature": Fraction(1, 10 ** 9)},
 }
 # au_* units: the oracle computes them from e, a0, E_h, hbar, m_e; CODATA prints its own rounded value (measured worst 6.6e-10 per unit)
-TOL_AU = Fraction(5, 10 ** 9)
+TOL_AU_UNIT = Fraction(1, 10 ** 9)     # per unit of |exponent| with which an au_* unit occurs
+TOL_AU = 5 * TOL_AU_UNIT
 TOL_NIST_YEAR = {y: max(TOL_KIND[y].values()) for y in TOL_KIND}      # loosest bound of the context (round trips, matcher slack)
 TRUSTED = [
     "pint (parser, alias/prefix resolution, UnitsContainer, Context graph search, plain conversion) is external code: modelled in "
-    "coq/Model/Units.v, not verified; unit expressions are given to the model already resolved to pint's canonical (prefix, unit) names",
+    "coq/Model/Units.v and (wave 2) coq/Model/UnitsText.v, not verified. The text stream hands the model the SAME strings as the implementation "
+    "(tokenizer, precedence, juxtaposition, symbol/alias/prefix resolution modelled for the subset of names of Gen.ident_table: ureg.py's own "
+    "names/aliases and the whitelisted plain units); the other streams still hand over resolved (prefix, unit) trees. Outside the modelled "
+    "texts: names pint knows but the table does not (such texts are filtered out by asking pint's get_name), a number or parenthesis "
+    "juxtaposed to a parenthesis (pint reads '3 (m)**2' as 9 m**2), offset units",
     "trusted external data read from the installed pint at translate time: exact SI factor and dimension of a whitelist of plain SI/imperial "
     "units (checked not to depend on anything ureg.py redefines) and the decimal prefix table",
     "translator harness/translate/uregdefs.py (fail-closed; the relationship loop, _find_nist_unit and build_transformer must be verbatim the "
@@ -48,7 +53,7 @@ ASSUMPTIONS = [
     "tolerances: model vs implementation relative 1e-12. Independent-SI oracle, by bridge kind: same dimension, energy<->energy/mol and "
     "energy(/mol)<->frequency with a source naming no NIST unit (context's own h, N_A): 1e-12; bridges that may use a published relationship "
     "constant: frequency/wavenumber/mass 1e-9 (measured worst 4.8e-10), temperature 2e-8 in CODATA2014 (8-digit kelvin relationships, measured "
-    "1.1e-8) and 1e-9 in CODATA2018; 5e-9 when a physics-derived au_* unit is involved (measured 6.6e-10 per unit); history/determinism "
+    "1.1e-8) and 1e-9 in CODATA2018; 1e-9 per unit of |exponent| of a physics-derived au_* unit (measured 6.6e-10 per unit); history/determinism "
     "comparisons 1e-13 (pint's factor cache makes the last ulp history dependent)",
 ]
 
@@ -110,6 +115,62 @@ def render(e):
 
 def cexpr(e):
     return uregdefs.cexpr(e)
+
+
+def render_sym(e, tr, rng, top=True):
+    """A second spelling of the same tree: symbols/short aliases, '^' or '**', juxtaposition for some products."""
+    t = e[0]
+    if t == "atom":
+        units = [k for k, v in tr["ids"].items() if v == e[2]]
+        us = min(units, key=len) if rng.random() < 0.7 else rng.choice(sorted(units))
+        if not e[1]:
+            return us
+        prefs = [k for k, v in tr["prefix_spellings"].items() if v == e[1]]
+        return (min(prefs, key=len) if rng.random() < 0.7 else e[1]) + us
+    if t == "num":
+        return render(e)
+    if t == "pow":
+        inner = render_sym(e[1], tr, rng, False)
+        if e[1][0] != "atom":
+            inner = "(" + inner + ")"
+        return inner + rng.choice(["^", "**", " ** "]) + (str(e[2]) if e[2] >= 0 or rng.random() < 0.5 else f"({e[2]})")
+    a, b = render_sym(e[1], tr, rng, False), render_sym(e[2], tr, rng, False)
+    if e[2][0] in ("mul", "div"):
+        b = "(" + b + ")"
+    if t == "mul":
+        # juxtaposition only between two identifiers (pint reads "3 (m)**2" as 9 m**2: a number directly before a parenthesis
+        # is outside the modelled texts)
+        plainish = lambda x: x[0] == "atom" or (x[0] == "pow" and x[1][0] == "atom")
+        op = rng.choice([" * ", "*", " "]) if (plainish(e[1]) and plainish(e[2])) else rng.choice([" * ", "*"])
+        return a + op + b
+    return a + rng.choice(["/", " / "]) + b
+
+
+def mirror_resolve(tok, tr):
+    """Python mirror of Model/UnitsText.v resolve_ident (same tables, same order)."""
+    ids = tr["ids"]
+    if tok in ids:
+        return "" + ids[tok]
+    for sp, p in sorted(tr["prefix_spellings"].items(), key=lambda kv: (-len(kv[0]), kv[0])):
+        if tok.startswith(sp) and tok[len(sp):] in ids:
+            return p + ids[tok[len(sp):]]
+    return None
+
+
+def text_in_subset(cobj, text, tr):
+    """Only texts whose identifiers pint resolves exactly as the model's table does (or not at all) are inside the modelled subset."""
+    import re as _re
+    if _re.search(r"[0-9.]\s*\(", text) or _re.search(r"\)\s*[0-9(A-Za-z_]", text):
+        return False          # number (or parenthesis) juxtaposed to a parenthesis: pint's reader has its own rules there
+    for tok in set(_re.findall(r"[A-Za-z_][A-Za-z_0-9]*", _re.sub(r"[0-9.]+[eE][-+]?[0-9]+", " ", text))):
+        want = mirror_resolve(tok, tr)
+        try:
+            got = cobj.ureg.get_name(tok)
+        except Exception:
+            got = None
+        if got != want:
+            return False
+    return True
 
 
 def atoms_of(e):
@@ -214,23 +275,24 @@ class SI:
         self.U = U
 
     def md(self, e):
-        """-> (Fraction magnitude, dim tuple, rounded?) ; KeyError for unknown units"""
+        """-> (Fraction magnitude, dim tuple, au weight) ; KeyError for unknown units.  The au weight is the total |exponent| with which
+        physics-derived au_* units occur (each may deviate from CODATA's printed value by up to 6.6e-10, measured)."""
         t = e[0]
         if t == "num":
-            return (e[1], (0,) * 7, False)
+            return (e[1], (0,) * 7, 0)
         if t == "atom":
             m, d, r = self.U[e[2]]
             if e[1]:
                 m = m * Fraction(10) ** self.prefixes[e[1]]
-            return (m, d, r)
+            return (m, d, 1 if r else 0)
         if t == "pow":
             m, d, r = self.md(e[1])
-            return (m ** e[2], tuple(x * e[2] for x in d), r)
+            return (m ** e[2], tuple(x * e[2] for x in d), r * abs(e[2]))
         ma, da, ra = self.md(e[1])
         mb, db, rb = self.md(e[2])
         if t == "mul":
-            return (ma * mb, tuple(x + y for x, y in zip(da, db)), ra or rb)
-        return (ma / mb, tuple(x - y for x, y in zip(da, db)), ra or rb)
+            return (ma * mb, tuple(x + y for x, y in zip(da, db)), ra + rb)
+        return (ma / mb, tuple(x - y for x, y in zip(da, db)), ra + rb)
 
     def energy_equiv(self, m, d):
         """SI energy equivalent of a quantity of one of the bridged dimensions."""
@@ -260,7 +322,7 @@ class SI:
         published relationship constant of that KIND: TOL_KIND[year][kind]."""
         ma, da, ra = self.md(a)
         mb, db, rb = self.md(b)
-        au = TOL_AU if (ra or rb) else Fraction(0)
+        au = TOL_AU_UNIT * (ra + rb)
         if da == db:
             return ("value", ma / mb, max(TOL_EXACT, au))
         if da in BRIDGED and db in BRIDGED:
@@ -336,6 +398,41 @@ def strip_prefix(e, target):
         return (e[0], x, e[2]), True
     y, hit = strip_prefix(e[2], target)
     return (e[0], e[1], y), hit
+
+
+def flat_log10_span(si, e):
+    """sum over the distinct units of e of |log10(SI magnitude ^ total exponent)| (numeric prefactors included)"""
+    import math
+    acc = {}
+
+    def walk(x, k):
+        t = x[0]
+        if t == "num":
+            acc[("num", str(x[1]))] = acc.get(("num", str(x[1])), 0) + k
+        elif t == "atom":
+            acc[(x[1], x[2])] = acc.get((x[1], x[2]), 0) + k
+        elif t == "pow":
+            walk(x[1], k * x[2])
+        elif t == "mul":
+            walk(x[1], k)
+            walk(x[2], k)
+        else:
+            walk(x[1], k)
+            walk(x[2], -k)
+
+    walk(e, 1)
+    tot = 0.0
+    for key, k in acc.items():
+        try:
+            if key[0] == "num":
+                m = Fraction(key[1])
+            else:
+                m = si.md(("atom", key[0], key[1]))[0]
+        except KeyError:
+            continue
+        if m > 0:
+            tot += abs(k * (math.log10(m.numerator) - math.log10(m.denominator)))
+    return tot
 
 
 def judge(si, a, b, out, rerun=None):
@@ -491,6 +588,21 @@ def gen_cases(ctx, tr):
             else:
                 a, b = MUL(N(k1), x1), DIV(x2, N(k2))
             cases.append(("compound", year, a, b))
+            # wave 2: nested powers, negative exponents, prefactors in both operands, parenthesised quotients
+            shape2 = rng.choice(["nest", "quot", "both", "negmul", "deep"])
+            n = rng.choice([2, 3, -1, -2, -3])
+            if shape2 == "nest":
+                a, b = POW(POW(x1, 2), n), MUL(N(k2), POW(x2, 2 * n))
+            elif shape2 == "quot":
+                a, b = DIV(MUL(N(k1), x1), DIV(y1, y2)), DIV(x2, N(k2))
+            elif shape2 == "both":
+                a, b = MUL(N(k1), DIV(MUL(N(k2), x1), y1)), DIV(MUL(N(k2), x2), MUL(N(k1), y2))
+            elif shape2 == "negmul":
+                a, b = MUL(MUL(N(k1), x1), POW(y1, n)), DIV(POW(DIV(x2, POW(y2, n)), -1), N(k2))
+                a, b = a, POW(b, -1)
+            else:
+                a, b = POW(DIV(MUL(N(k1), x1), POW(y1, 2)), n), MUL(POW(x2, n), POW(POW(y2, -1), 2 * n))
+            cases.append(("compound2", year, a, b))
         # bridges: every ordered pair of bridged dimensions
         bdims = ["energy", "frequency", "wavenumber", "mass", "temperature", "energy/mol"]
         bsrc = {}
@@ -579,6 +691,16 @@ HISTORY_GROUPS = [
      [("J", A("joule")), ("Hz", A("hertz"))]),
     ([("hartree", A("hartree")), ("Hartree", None), ("E_h", A("hartree")), ("au_energy", A("hartree"))],
      [("eV", A("electron_volt")), ("kcal/mol", DIV(A("calorie", "kilo"), A("mole")))]),
+    ([("(kcal/mol)**-1", POW(DIV(A("calorie", "kilo"), A("mole")), -1)), ("(kcal / mol) ** (-1)", POW(DIV(A("calorie", "kilo"), A("mole")), -1)),
+      ("mol/kcal", DIV(A("mole"), A("calorie", "kilo"))), ("mol / k cal", None)],
+     [("mol/J", DIV(A("mole"), A("joule"))), ("(J/mol)^-1", POW(DIV(A("joule"), A("mole")), -1))]),
+    ([("(m/s)^2", POW(DIV(A("meter"), A("second")), 2)), ("m^2/s^2", DIV(POW(A("meter"), 2), POW(A("second"), 2))),
+      ("m^2 s^-2", MUL(POW(A("meter"), 2), POW(A("second"), -2))), ("(m/s)^-2", POW(DIV(A("meter"), A("second")), -2)),
+      ("m^2/s^-2", DIV(POW(A("meter"), 2), POW(A("second"), -2)))],
+     [("J/kg", DIV(A("joule"), A("gram", "kilo"))), ("(bohr/au_time)**2", POW(DIV(A("bohr"), A("au_time")), 2))]),
+    ([("2 kJ/(3 mol)", DIV(MUL(N(2), A("joule", "kilo")), MUL(N(3), A("mole")))), ("2 kJ/3 mol", MUL(DIV(MUL(N(2), A("joule", "kilo")), N(3)), A("mole"))),
+      ("2kJ/(3mol)", DIV(MUL(N(2), A("joule", "kilo")), MUL(N(3), A("mole"))))],
+     [("kcal/mol", DIV(A("calorie", "kilo"), A("mole"))), ("0.5 eV", MUL(N("0.5"), A("electron_volt")))]),
     ([("kWh", MUL(A("watt", "kilo"), A("hour"))), ("kW h", MUL(A("watt", "kilo"), A("hour"))), ("kW*h", MUL(A("watt", "kilo"), A("hour")))],
      [("J", A("joule")), ("Hz", A("hertz")), ("1/cm", DIV(N(1), A("meter", "centi")))]),
 ]
@@ -640,6 +762,18 @@ def correspond(ctx):
         # translation failed: oracle only, on a reduced corpus that needs nothing from the translation
         tr_for_cases = {"au_defs": {2014: [], 2018: []}}
     cases = [("corpus", y, a, b) for y, a, b in CORPUS] + gen_cases(ctx, tr_for_cases)
+    # binary64 range guard (generator restriction, not an oracle relaxation): pint flattens an expression into a product of
+    # base-unit powers and multiplies them up in its own order, so a compound whose flattened per-unit powers have decimal
+    # exponents summing beyond ~1e250 may overflow/underflow an intermediate although the factor itself is representable
+    # (seed 1: (au_action/hartree)^-3 * ((eV/angstrom^3)^-1)^-6 -> 0.0).  Such cases are outside what binary64 can deliver
+    # and are dropped before either side is run.
+    kept = []
+    for c in cases:
+        if c[0].startswith("compound") and flat_log10_span(si[c[1]], c[2]) + flat_log10_span(si[c[1]], c[3]) > 250:
+            corr.hit("dropped: flattened powers beyond 1e250 (binary64 intermediate range)")
+            continue
+        kept.append(c)
+    cases = kept
     seen, terms, meta = set(), [], []
     answers = {}
     for stream, year, a, b in cases:
@@ -804,8 +938,49 @@ def correspond(ctx):
         corr.disagreements.append({"stream": stream, "case": case, "impl": out, "model": got})
     if len(bad) > 8:
         corr.notes.append(f"{len(bad)} disagreements in total; first 8 listed")
+    # text stream: the model reads the TEXT itself (Model/UnitsText.v: tokenizer, precedence, symbol/alias/prefix resolution)
+    texts = []
+    for alias, canon in ALIAS_PAIRS:
+        for tgt in ALIAS_TARGETS:
+            texts += [(alias, tgt), (tgt, alias), (canon, tgt)]
+    for members, targets in HISTORY_GROUPS:
+        for mt, _me in members:
+            for tt, _te in targets:
+                texts += [(mt, tt), (tt, mt)]
+    sample = [m_ for m_ in meta if m_[2] != "history"]
+    ctx.rng.shuffle(sample)
+    for case, _out, _stream in sample[:4000 if ctx.thorough else 1200]:
+        texts.append((case["a"], case["b"]))
+        texts.append((render_sym(case["ea"], tr, ctx.rng), render_sym(case["eb"], tr, ctx.rng)))
+    tterms, tmeta, skipped = [], [], 0
+    seen_t = set()
+    for year in (2014, 2018):
+        for ta, tb in texts:
+            if (year, ta, tb) in seen_t:
+                continue
+            seen_t.add((year, ta, tb))
+            if not (ta.isascii() and tb.isascii() and text_in_subset(ctxs[year], ta, tr) and text_in_subset(ctxs[year], tb, tr)):
+                skipped += 1
+                continue
+            out = impl_call(ctxs[year], ta, tb)
+            et = expect_term(out)
+            if et is None or (out[0] == "err" and out[1] not in ("DimensionalityError", "UndefinedUnitError")):
+                skipped += 1
+                continue
+            corr.count("text")
+            tterms.append(f"({cz(year)}, {cstr(ta)}, {cstr(tb)}, {et})")
+            tmeta.append(({"year": year, "a": ta, "b": tb, "text": True}, out))
+    corr.notes.append(f"text stream: {len(tterms)} spellings read by the model from the text itself; {skipped} outside the modelled subset of names (skipped)")
+    tbad, terrors = coqrun.eval_bad_indices("C03text", ["QV.Common.Outcome", "QV.Common.UnitsC03", "QV.Model.Units", "QV.Model.UnitsText"], "",
+                                            "check_case_text", tterms, shard=1000, ty="Z * string * string * cexpect")
+    corr.errors.extend(f"text shard {k}: {e}" for k, e in terrors)
+    for bi in tbad[:8]:
+        case, out = tmeta[bi]
+        got, _ = coqrun.eval_terms("C03text", ["QV.Common.Outcome", "QV.Common.UnitsC03", "QV.Model.Units", "QV.Model.UnitsText"], "",
+                                   [f"(conv_text (ctx_of {cz(case['year'])}) {cstr(case['a'])} {cstr(case['b'])}, parse_text {cstr(case['a'])}, parse_text {cstr(case['b'])})"])
+        corr.disagreements.append({"stream": "text", "case": case, "impl": out, "model": got})
     corr.notes.append("tolerances: model vs implementation 1e-12 relative; oracle by bridge kind: 1e-12 (same dimension, energy/mol, default-route "
-                      "frequency), 1e-9 (frequency/wavenumber/mass via published relationships; temperature 2018), 2e-8 (temperature 2014), 5e-9 (au_* units)")
+                      "frequency), 1e-9 (frequency/wavenumber/mass via published relationships; temperature 2018), 2e-8 (temperature 2014), 1e-9 x total |exponent| of au_* units")
     return corr
 
 
@@ -930,7 +1105,8 @@ LEVEL_TEXT = (
     "5e-9 for 2018). Known finding: C03_prefixed_bridge_refuted (MHz -> hartree) and C03_prefixed_bridge_characterised (for every SI prefix, every "
     "single NIST-relationship source unit and EVERY target expression across a one-transformer bridge the factor is exactly prefix^2 times the "
     "unprefixed one), C03_unprefixed_bridge_examples. Tied to the code by the fail-closed translator and by differential execution within 1e-12; "
-    "the independent SI oracle judges every answer of the implementation.")
+    "the independent SI oracle judges every answer of the implementation. Wave 2: Model/UnitsText.v reads unit TEXT (C03_text_reader_examples "
+    "pins instances; ~7k spellings per quick run are read by the model from the text itself), C03_au_units_consistent tightened to 1e-9.")
 LEVEL_NOTE = (
     "The proof content is algebra over the model plus table consistency; the tie carries the weight: pint (parser, alias and prefix resolution, "
     "UnitsContainer, Context graph search, conversion) is external code, modelled by hand in Model/Units.v on expressions that are already "
